@@ -463,7 +463,7 @@ def gen_script(rng, interrupt=None):
 
 def gen_fit(rng, idx, kind="single", real=None, allow_arith=False, plain=False):
     plain = plain or kind == "grid"     # grid searches use plain model shapes (their cells inherit the shape)
-    tag = rng.choice([None, "t1", "t1", "t2", "data_7"])
+    tag = rng.choice([None, "t1", "t1", "t2", "data_7", ""])       # '' is a legal tag: falsy but not None
     prefix = rng.choice([None, "pp", "pp", "pp/qq"])
     grid = None
     need_shared = 0
@@ -646,6 +646,22 @@ def gen_settings(rng, classes, per_class):
             cases.append({"kind": "settings", "cls": cls, "kwargs": kw,
                           "name": rng.choice(["n", "fit_a", "x1"]), "tag": rng.choice([None, "t1", "data_7"]),
                           "prefix": rng.choice([None, "pp", "pp/qq"])})
+        # unusual but legal values, for EVERY class in every run: the empty tag / name / prefix, a tag equal to the
+        # name, settings that are zero / negative / huge / False (falsy values must be persisted and hashed too)
+        for k, (name, tag, prefix) in enumerate([("n", "", None), ("", "", ""), ("x", "x", "x/x"), ("n", None, "a.b/c.d")]):
+            kw = dict(rng.choice(SETTINGS_KW.get(cls, [{}])))
+            for key in sorted(kw):
+                v = kw[key]
+                if isinstance(v, bool):
+                    kw[key] = rng.choice([False, True])
+                elif isinstance(v, int):
+                    kw[key] = rng.choice([0, -1, 10 ** 12, v])
+                elif isinstance(v, float):
+                    kw[key] = rng.choice([0.0, -0.5, 1e300, v])
+            if k % 2 == 1:
+                kw["iterations_per_update"] = rng.choice([0, -1, 10 ** 12])
+            cases.append({"kind": "settings", "cls": cls, "kwargs": kw, "name": name, "tag": tag, "prefix": prefix,
+                          "unusual": True})
     return cases
 
 
@@ -719,6 +735,34 @@ def gen_cases(ctx, classes):
         f["scripts"][0]["interrupt"] = None
         f["n_analyses"] = 1
         scen.append({"kind": "scenario", "flavour": "fits", "fits": [f, g], "completed_only": False, "shape": "info-values"})
+    # (1h) UNUSUAL BUT LEGAL VALUES of every field that enters the identifier, the folder location or the loaded row,
+    #      in every run: the empty tag (falsy, not None) with and without prefix, an empty name / prefix, a tag equal
+    #      to the name and the prefix, tags that look like other values ('None', '0', ' '), dotted / deep prefixes, info
+    #      {} / None -- each beside an ordinary fit; and a grid search under the empty tag
+    unusual = [dict(tag="", prefix=None), dict(tag="", prefix="pp/qq"), dict(tag="", name="", prefix=""),
+               dict(tag="x", name="x", prefix="x"), dict(tag=rng.choice(["None", "0", " ", "False"]), prefix=""),
+               dict(tag=None, name="", prefix=rng.choice(["a.b/c.d/e", "p.q"])), dict(tag="", prefix="a.b", info={}),
+               dict(tag="", prefix=None, info=None), dict(tag="t1", name="t1", prefix=None, info={})]
+    rng.shuffle(unusual[1:])
+    groups = [unusual[:3], unusual[3:6], unusual[6:]] if thorough else [unusual[:2], unusual[2:5]]
+    for grp in groups:
+        fits = []
+        for i, over in enumerate(grp):
+            f = gen_fit(rng, i, plain=True)
+            f["scripts"][0]["interrupt"] = None if i == 0 else f["scripts"][0]["interrupt"]
+            f["n_analyses"] = 1
+            if f["layout"] in ("zip+partial", "zip+stale"):
+                f["layout"] = "both"
+                f.pop("delete", None)
+            f.update(over)
+            fits.append(f)
+        fits.append(gen_fit(rng, len(fits), plain=True))
+        scen.append({"kind": "scenario", "flavour": "fits", "fits": fits, "completed_only": False, "shape": "unusual-values"})
+    g = gen_fit(rng, 0, kind="grid")
+    g["tag"] = ""
+    h = gen_fit(rng, 1, plain=True)
+    h.update({"tag": "", "prefix": g["prefix"]})
+    scen.append({"kind": "scenario", "flavour": "dir", "fits": [g, h], "completed_only": False, "shape": "unusual-values-grid"})
     # (1f) shapes of the model's branches that random generation does not reach
     #  - a fit WITH analyses children lying in the directory twice: clean IntegrityError, nothing committed
     f = gen_fit(rng, 0, plain=True)
@@ -1097,8 +1141,14 @@ def c_spec(s):
         clist([c_strs(a) for a in s["analyses"]]))
 
 
+def path_levels(prefix, tag, name):
+    """folder levels above the identifier: empty components (prefix part, tag '', name '') add no level"""
+    pre = prefix.split("/") if isinstance(prefix, str) else list(prefix or [])
+    return [x for x in pre + ([tag] if tag is not None else []) + [name] if x]
+
+
 def spec_path(s):
-    return s["prefix"] + ([s["tag"]] if s["tag"] is not None else []) + [s["name"], s["id"]]
+    return path_levels(s["prefix"], s["tag"], s["name"]) + [s["id"]]
 
 
 def c_paths(paths):
@@ -1136,8 +1186,7 @@ def coq_case(c, r):
         for i, (f, rec) in enumerate(zip(c["fits"], r["fits"])):
             if rec.get("exc") or not rec.get("identifier"):
                 return None, "fit-not-written"
-            pre = f["prefix"].split("/") if f.get("prefix") else []
-            rel = "/".join(pre + ([f["tag"]] if f.get("tag") is not None else []) + [f["name"], rec["identifier"]])
+            rel = "/".join(path_levels(f.get("prefix"), f.get("tag"), f["name"]) + [rec["identifier"]])
             e = entries.get(rel)
             s = spec_of(f, rec, e)
             specs.append(s)
@@ -1601,7 +1650,9 @@ def run(ctx):
                         ctx.hist("partial_folder_lacks", x)
                 ctx.hist("interrupt", f["scripts"][0].get("interrupt"))
                 ctx.hist("n_analyses", f.get("n_analyses", 1))
-                ctx.hist("tag", "none" if f.get("tag") is None else "set")
+                ctx.hist("tag", "none" if f.get("tag") is None else "empty" if f["tag"] == "" else "set")
+                ctx.hist("name", "empty" if f["name"] == "" else "set")
+                ctx.hist("prefix", "none" if f.get("prefix") is None else "empty" if f["prefix"] == "" else "dotted" if "." in f["prefix"] else "set")
                 ctx.hist("prefit", (f.get("prefit") or {}).get("stage"))
                 ctx.hist("info_kind", "none" if not f.get("info") else (sorted(info_labels(f["info"])) or ["strings"])[0])
                 for lb in sorted(fit_labels(f)):
